@@ -37,7 +37,7 @@ theorem wrapMilp_ok_inv {lm : LinModel (Ext K)} {out : MlpOutcome (Ext K)} {s : 
     · split at h
       · simp at h
       · cases out with
-        | err e => simp at h
+        | err e => simp only at h; split at h <;> simp at h
         | ok st obj vals =>
           simp only at h
           cases hc : constraintsMap lm vals with
